@@ -497,11 +497,16 @@ def _apply(e, live, op, lib):
             k = live[op[1] % len(live)]
             if lib.call(e.remove, k)[0] == 'ok':
                 live.remove(k)
-    elif kind in ('rep', 'repf'):
+    elif kind in ('rep', 'repf', 'repi'):
         if live:
             k = live[op[1] % len(live)]
             new = lib.make(lib.child_cls(op[2]))
-            r = lib.call(e.replace_child, k, new) if kind == 'rep' else lib.call(e.replace_child, lambda c_, _k=k: c_ is _k, new)
+            if kind == 'repi':
+                same = [c_ for c_ in e.get_children(True) if c_.name == k.name]
+                pos = next((j for j, c_ in enumerate(same) if c_ is k), 0)
+                r = lib.call(e.replace_child, (lambda c_, _n=k.name: c_.name == _n), new, pos)
+            else:
+                r = lib.call(e.replace_child, k, new) if kind == 'rep' else lib.call(e.replace_child, lambda c_, _k=k: c_ is _k, new)
             if r[0] == 'ok':
                 live[live.index(k)] = new
     elif kind == 'set':
